@@ -44,7 +44,8 @@ def _mk_runner(mod, base_seed, tier):
   def fn(i):
     seed = mix(base_seed, mod.PROP, i)
     plan = mod.gen_plan(seed, tier)
-    res = mod.run_plan(plan)
+    # (a run must never change its plan: what is recorded has to replay)
+    res = mod.run_plan(copy.deepcopy(plan))
     if res.get("verdict") in ("violation",):
       res["plan"] = plan
     elif i < 2:
@@ -65,7 +66,8 @@ def _shorten(plan):
 
 
 def _run_plan_child(mod, plan, timeout=30):
-  return pool.run_in_child(lambda _: mod.run_plan(plan), None, timeout)
+  return pool.run_in_child(lambda _: mod.run_plan(copy.deepcopy(plan)), None,
+                           timeout)
 
 
 def minimise(mod, plan, vclass, max_exec=250, max_wall=60.0):
